@@ -2,7 +2,7 @@
    uses meet the device conditions of the inlining theorem. *)
 From Coq Require Import Permutation.
 From TV Require Import Base Model.Wiring Model.Ticker Model.Component Model.Sim Model.SimTime Model.Inline
-  Oracle.SimCheck Proofs.WiringP Proofs.EqvP Proofs.InlineP Proofs.InlineLoopP.
+  Oracle.SimCheck Proofs.WiringP Proofs.TickerP Proofs.SimP Proofs.EqvP Proofs.ParDevP Proofs.InlineP Proofs.InlineLoopP.
 Open Scope Z_scope.
 
 Lemma all_dev_map l : forallb is_dev l = true -> l = map dv (map fst l).
@@ -28,6 +28,26 @@ Proof.
   apply Pos.eqb_eq in E1. apply Pos.eqb_eq in E2. split; assumption.
 Qed.
 
+Lemma top_kinds_dev cfg pre c lvc post inn :
+  l_order (level_of cfg top) = map dv pre ++ (c, KSys lvc) :: map dv post ->
+  NoDup (c :: ext_id :: exp_id :: pre ++ inn ++ post) ->
+  forall x, In x (pre ++ post) -> kd_of cfg x = KDev.
+Proof.
+  intros Etop Hnd x Hx. unfold kd_of. rewrite Etop.
+  assert (Hk : NoDup (keys (map dv pre ++ (c, KSys lvc) :: map dv post))).
+  { unfold keys. rewrite map_app. cbn [map fst]. unfold dv. rewrite !map_map. cbn [fst]. rewrite !map_id.
+    inversion Hnd as [|? ? Hc Hnd1]; subst. inversion Hnd1 as [|? ? _ Hnd2]; subst. inversion Hnd2 as [|? ? _ Hnd3]; subst.
+    apply NoDup_app_disj.
+    - apply NoDup_app_l in Hnd3. exact Hnd3.
+    - constructor; [intros Hi; apply Hc; right; right; apply in_app_iff; right; apply in_app_iff; right; exact Hi|].
+      apply NoDup_app_r in Hnd3. apply NoDup_app_r in Hnd3. exact Hnd3.
+    - intros z Hz [E|Hz2]; [subst z; apply Hc; right; right; apply in_app_iff; left; exact Hz|].
+      apply (NoDup_app_disjoint pre _ z Hnd3 Hz). apply in_app_iff. right. exact Hz2. }
+  assert (Hi : In (x, KDev) (map dv pre ++ (c, KSys lvc) :: map dv post)).
+  { apply in_app_iff in Hx. apply in_app_iff. destruct Hx as [Hx|Hx]; [left | right; right]; apply in_map_iff; exists x; (split; [reflexivity | exact Hx]). }
+  apply (lookup_In_iff _ x KDev Hk) in Hi. rewrite Hi. reflexivity.
+Qed.
+
 Theorem shape_of_sound cfg c lvc pre inn post :
   shape_of cfg = Some (c, lvc, pre, inn, post) -> shape cfg c lvc pre inn post.
 Proof.
@@ -35,10 +55,15 @@ Proof.
   match goal with |- (if ?b then _ else _) = _ -> _ => destruct b eqn:Eb; [|discriminate] end.
   intros H. inversion H; subst. clear H.
   repeat (apply andb_true_iff in Eb; let H := fresh "K" in destruct Eb as [Eb H]).
+  assert (Hnd : NoDup (c :: ext_id :: exp_id :: pre ++ map fst (l_order (level_of cfg lvc)) ++ post)) by (apply nodupb_NoDup; exact K4).
+  pose proof (split_sys_sound _ _ _ _ _ Es) as Etop.
+  assert (Hkd : forall x, In x (pre ++ post) -> kd_of cfg x = KDev) by (apply (top_kinds_dev cfg pre c lvc post _ Etop Hnd)).
+  assert (Hdk : forall l, (forall x, In x l -> In x (pre ++ post)) -> map (dk cfg) l = map dv l).
+  { intros l Hl. apply map_ext_in. intros x Hx. unfold dk, dv. rewrite (Hkd x (Hl x Hx)). reflexivity. }
   constructor.
-  - apply split_sys_sound. exact Es.
+  - rewrite (Hdk pre), (Hdk post); [exact Etop | intros x Hx; apply in_app_iff; right; exact Hx | intros x Hx; apply in_app_iff; left; exact Hx].
   - apply all_dev_map. exact Eb.
-  - apply nodupb_NoDup. exact K4.
+  - exact Hnd.
   - intros E. rewrite E, Pos.eqb_refl in K3. discriminate.
   - apply single_sourceb_sound. exact K2.
   - apply single_sourceb_sound. exact K1.
@@ -48,6 +73,15 @@ Proof.
   - intros u p e q Hin. pose proof (proj1 (forallb_forall _ _) K _ Hin) as Hk. cbv beta iota in Hk.
     apply andb_true_iff in Hk. destruct Hk as [Hk Hn]. apply andb_true_iff in Hk. destruct Hk as [Hu Hy].
     split; [apply memb_In; exact Hu|]. split; [apply memb_In; exact Hy|]. intros [E1 E2]. subst. rewrite !Pos.eqb_refl in Hn. discriminate.
+Qed.
+
+Lemma shape_of_devices cfg c lvc pre inn post :
+  shape_of cfg = Some (c, lvc, pre, inn, post) -> forall g, sib_ok cfg g c lvc pre inn post.
+Proof.
+  intros Hs g. apply sib_ok_devices. pose proof (shape_of_sound _ _ _ _ _ _ Hs) as Hsh.
+  unfold shape_of in Hs. destruct (split_sys (l_order (level_of cfg top))) as [[[[pre' c'] lv'] post']|] eqn:Es; [|discriminate].
+  match type of Hs with (if ?b then _ else _) = _ => destruct b; [|discriminate] end. inversion Hs; subst. clear Hs.
+  apply (top_kinds_dev cfg pre c lvc post _ (split_sys_sound _ _ _ _ _ Es) (sh_nodup _ _ _ _ _ _ Hsh)).
 Qed.
 
 (* ---------- the harness's devices *)
@@ -110,4 +144,105 @@ Proof.
     assert (0 <= hsh seed (Z.pos c) n 7 mod 3) by (apply Z.mod_pos_bound; lia).
     rewrite <- (Z.add_0_r t) at 1. apply Z.add_le_mono_l. apply Z.mul_nonneg_nonneg; lia. }
   destruct (policy =? 4); [destruct (n mod 2 =? 1); intros H; apply (Hsome _ H); lia|]. discriminate.
+Qed.
+
+(* ---------- the general scope: the system c anywhere among top-level devices AND system simulations
+   (the siblings may be nested to any depth) -- decided for a given fuel g *)
+Fixpoint split_at (c : comp) (l : list (comp * ckind)) : option (list comp * ckind * list comp) :=
+  match l with
+  | [] => None
+  | (x, k) :: r =>
+      if Pos.eqb x c then Some ([], k, map fst r)
+      else match split_at c r with Some (pre, k', post) => Some (x :: pre, k', post) | None => None end
+  end.
+
+Definition shape_at (cfg : config) (g : nat) (c : comp) : option (positive * list comp * list comp * list comp) :=
+  match split_at c (l_order (level_of cfg top)) with
+  | Some (pre, KSys lvc, post) =>
+      let inner := l_order (level_of cfg lvc) in
+      let inn := map fst inner in
+      if forallb is_dev inner
+         && nodupb (c :: ext_id :: exp_id :: pre ++ inn ++ post)
+         && negb (Pos.eqb lvc top)
+         && single_sourceb (l_conns (level_of cfg top)) && single_sourceb (l_conns (level_of cfg lvc))
+         && forallb (fun k : conn => let '(u, _, y, _) := k in
+                       memb u (c :: pre ++ post) && memb y (c :: pre ++ post) && negb (Pos.eqb u c && Pos.eqb y c))
+                    (l_conns (level_of cfg top))
+         && forallb (fun k : conn => let '(u, _, e, _) := k in
+                       memb u (ext_id :: inn) && memb e (exp_id :: inn) && negb (Pos.eqb u ext_id && Pos.eqb e exp_id))
+                    (l_conns (level_of cfg lvc))
+         && forallb (fun y : comp =>
+                       match kd_of cfg y with
+                       | KDev => true
+                       | KSys ly =>
+                           negb (memb top (levels_below cfg g ly)) && negb (memb lvc (levels_below cfg g ly))
+                           && forallb (fun z : comp => negb (memb z (pre ++ inn ++ post)) && negb (Pos.eqb z c)) (devices_below cfg g ly)
+                           && forallb (fun l : positive => single_sourceb (l_conns (level_of cfg l))) (levels_below cfg g ly)
+                       end) (pre ++ post)
+      then Some (lvc, pre, inn, post) else None
+  | _ => None
+  end.
+
+Lemma split_at_sound c : forall l pre k post, split_at c l = Some (pre, k, post) ->
+  exists prel postl, l = prel ++ (c, k) :: postl /\ pre = map fst prel /\ post = map fst postl.
+Proof.
+  induction l as [|[x k0] r IH]; intros pre k post H; [discriminate|]. cbn [split_at] in H.
+  destruct (Pos.eqb_spec x c) as [E|_].
+  - inversion H; subst. exists [], r. repeat split; reflexivity.
+  - destruct (split_at c r) as [[[pre' k'] post']|] eqn:Es; [|discriminate]. inversion H; subst.
+    destruct (IH pre' k post eq_refl) as [prel [postl [E1 [E2 E3]]]]. exists ((x, k0) :: prel), postl. subst. repeat split; reflexivity.
+Qed.
+
+Lemma order_as_dk cfg (l : list (comp * ckind)) :
+  (forall x k, In (x, k) l -> kd_of cfg x = k) -> l = map (dk cfg) (map fst l).
+Proof.
+  induction l as [|[x k] r IH]; intros H; [reflexivity|]. cbn [map fst]. unfold dk at 1. rewrite (H x k (or_introl eq_refl)).
+  f_equal. apply IH. intros y ky Hy. apply H. right. exact Hy.
+Qed.
+
+Theorem shape_at_sound cfg g c lvc pre inn post :
+  shape_at cfg g c = Some (lvc, pre, inn, post) -> shape cfg c lvc pre inn post /\ sib_ok cfg g c lvc pre inn post.
+Proof.
+  unfold shape_at. destruct (split_at c (l_order (level_of cfg top))) as [[[pre' k] post']|] eqn:Es; [|discriminate].
+  destruct k as [|lvc']; [discriminate|].
+  match goal with |- (if ?b then _ else _) = _ -> _ => destruct b eqn:Eb; [|discriminate] end.
+  intros H. inversion H; subst. clear H.
+  repeat (apply andb_true_iff in Eb; let H := fresh "K" in destruct Eb as [Eb H]).
+  assert (Hnd : NoDup (c :: ext_id :: exp_id :: pre ++ map fst (l_order (level_of cfg lvc)) ++ post)) by (apply nodupb_NoDup; exact K5).
+  destruct (split_at_sound c _ _ _ _ Es) as [prel [postl [Etop [Epre Epost]]]]. subst pre post.
+  assert (Hkeys : NoDup (keys (l_order (level_of cfg top)))).
+  { rewrite Etop. unfold keys. rewrite map_app. cbn [map fst].
+    inversion Hnd as [|? ? Hc Hnd1]; subst. inversion Hnd1 as [|? ? _ Hnd2]; subst. inversion Hnd2 as [|? ? _ Hnd3]; subst.
+    apply NoDup_app_disj.
+    - apply NoDup_app_l in Hnd3. exact Hnd3.
+    - constructor; [intros Hi; apply Hc; right; right; apply in_app_iff; right; apply in_app_iff; right; exact Hi|].
+      apply NoDup_app_r in Hnd3. apply NoDup_app_r in Hnd3. exact Hnd3.
+    - intros z Hz [E|Hz2]; [subst z; apply Hc; right; right; apply in_app_iff; left; exact Hz|].
+      apply (NoDup_app_disjoint (map fst prel) _ z Hnd3 Hz). apply in_app_iff. right. exact Hz2. }
+  assert (Hkd : forall x k, In (x, k) (l_order (level_of cfg top)) -> kd_of cfg x = k).
+  { intros x k Hi. unfold kd_of. apply (lookup_In_iff _ x k Hkeys) in Hi. rewrite Hi. reflexivity. }
+  split.
+  - constructor.
+    + rewrite Etop at 1.
+      rewrite <- (order_as_dk cfg prel), <- (order_as_dk cfg postl); [reflexivity | |];
+        intros x k Hi; apply Hkd; rewrite Etop; apply in_app_iff; [right; right; exact Hi | left; exact Hi].
+    + apply all_dev_map. exact Eb.
+    + exact Hnd.
+    + intros E. rewrite E, Pos.eqb_refl in K4. discriminate.
+    + apply single_sourceb_sound. exact K3.
+    + apply single_sourceb_sound. exact K2.
+    + intros u p y q Hin. pose proof (proj1 (forallb_forall _ _) K1 _ Hin) as Hk. cbv beta iota in Hk.
+      apply andb_true_iff in Hk. destruct Hk as [Hk Hn]. apply andb_true_iff in Hk. destruct Hk as [Hu Hy].
+      split; [apply memb_In; exact Hu|]. split; [apply memb_In; exact Hy|]. intros [E1 E2]. subst. rewrite !Pos.eqb_refl in Hn. discriminate.
+    + intros u p e q Hin. pose proof (proj1 (forallb_forall _ _) K0 _ Hin) as Hk. cbv beta iota in Hk.
+      apply andb_true_iff in Hk. destruct Hk as [Hk Hn]. apply andb_true_iff in Hk. destruct Hk as [Hu Hy].
+      split; [apply memb_In; exact Hu|]. split; [apply memb_In; exact Hy|]. intros [E1 E2]. subst. rewrite !Pos.eqb_refl in Hn. discriminate.
+  - intros y ly Hy Hk. pose proof (proj1 (forallb_forall _ _) K _ Hy) as Hc. cbv beta in Hc. rewrite Hk in Hc.
+    repeat (apply andb_true_iff in Hc; let H := fresh "Q" in destruct Hc as [Hc H]).
+    split; [apply memb_false; destruct (memb top (levels_below cfg g ly)); [discriminate | reflexivity]|].
+    split; [apply memb_false; destruct (memb lvc (levels_below cfg g ly)); [discriminate | reflexivity]|].
+    split.
+    + intros z Hz. pose proof (proj1 (forallb_forall _ _) Q0 _ Hz) as Hq. cbv beta in Hq. apply andb_true_iff in Hq. destruct Hq as [H1 H2].
+      split; [apply memb_false; destruct (memb z _); [discriminate | reflexivity] | intros E; subst z; rewrite Pos.eqb_refl in H2; discriminate].
+    + intros l Hl. apply single_sourceb_sound. apply (proj1 (forallb_forall _ _) Q _ Hl).
 Qed.
